@@ -93,6 +93,15 @@ def drop_timing_statistics(body, log, where):
     return body
 
 
+def rewrite_for_mut_ref(body, log, where):
+    """R9: `for PAT in &mut X {` -> `for PAT in X.iter_mut() {` (IntoIterator for &mut Vec<T> / &mut [T] IS iter_mut();
+    this Verus version specifies only the latter)."""
+    def repl(m):
+        log.rw('R9', where, m.group(0))
+        return 'for %s in %s.iter_mut() {' % (m.group(1), m.group(2))
+    return re.sub(r'for\s+([\w\(\), ]+?)\s+in\s+&mut\s+(\w+)\s*\{', repl, body)
+
+
 def drop_path_prefixes(text, log, where):
     def repl(m):
         log.rw('R5', where, m.group(0))
@@ -129,6 +138,7 @@ def render_fn(fn_item, contract, log, where, in_trait_decl=False):
     b = strip_attrs_in_body(body, log, where)
     b = drop_timing_statistics(b, log, where)
     b = rewrite_or_assign(b, log, where)
+    b = rewrite_for_mut_ref(b, log, where)
     b = drop_path_prefixes(b, log, where)
     if pre:
         b = re.sub(r'\bself\b', 'self_', b)
@@ -158,6 +168,15 @@ def insert_loop_invariants(body, loops, where, ghost=(), log=None):
             inserts.append((0, '\n' + text.rstrip() + '\n'))
             if log is not None:
                 log.rw('R7', where, 'ghost statements at function start')
+        elif anchor == 'after-text':
+            # anchored on a statement of the real body (whitespace-insensitive); not found => lost anchor (exit 2)
+            pat = r'\s*'.join(re.escape(tok) for tok in re.findall(r'\w+|[^\w\s]', gn))
+            ms = list(re.finditer(pat, body))
+            if len(ms) != 1:
+                raise LostAnchor('%s: ghost anchor text %r found %d times' % (where, gn, len(ms)))
+            inserts.append((ms[0].end(), '\n' + text.rstrip() + '\n'))
+            if log is not None:
+                log.rw('R7', where, 'ghost statements after `%s`' % gn)
         else:
             ghost_by_loop.setdefault(gn, []).append((anchor, text))
             if gn < 1 or gn > len(heads):
@@ -229,7 +248,10 @@ def parse_fn_contracts(lines):
         elif s.startswith('//@ghost '):
             parts = s.split()
             anchor = parts[1]
-            n = int(parts[2]) if len(parts) > 2 else 0
+            if anchor == 'after-text':
+                n = s.split(None, 2)[2]
+            else:
+                n = int(parts[2]) if len(parts) > 2 else 0
             cur.setdefault('ghost', []).append([anchor, n, ''])
             curloop = ('ghost', len(cur['ghost']) - 1)
         elif s.startswith('//@drop '):
@@ -296,6 +318,12 @@ class Splicer:
                     raise LostAnchor('type %s::%s::%s not found' % (crate, mod, name))
                 it = it[0]
                 ders = self.derive_list(crate, mod, name)
+                if not ders:
+                    # raw (unexpanded) source: the derive attribute is still on the item
+                    for a in it.attrs:
+                        md = re.match(r'#\[derive\((.*)\)\]', a.strip(), re.S)
+                        if md:
+                            ders = [d for d in VERUS_DERIVES if d in [x.strip() for x in md.group(1).split(',')]]
                 self.log.rw('R3', '%s::%s::%s' % (crate, mod, name), 'derive impls -> #[derive(%s)]' % ', '.join(ders))
                 self.log.types.append('%s::%s::%s' % (crate, mod, name))
                 if ders:
